@@ -202,6 +202,8 @@ func c11(ctx *core.Ctx) {
 		m := &mModel{}
 		c := newC11Container(router, options)
 		nops := r.Range(4, 20)
+		// every 6th history: a plain handler may sit on "/" itself; such a history adds no root-mapped WebService
+		plainRoot := hi%6 == 5
 		var opsLog []string
 		ctx.Case(hi, fmt.Sprintf("router=%s options=%v", router, options))
 		probes := m.probes()
@@ -252,6 +254,9 @@ func c11(ctx *core.Ctx) {
 					if len(m.Handlers) < len(c11Patterns) {
 						kind = "Handle"
 					}
+					if plainRoot && oi < 2 {
+						kind = "Handle" // early, before most services
+					}
 					if len(m.Handlers) > 0 && r.Chance(1, 4) {
 						kind = "HandleDuplicate"
 					}
@@ -267,6 +272,9 @@ func c11(ctx *core.Ctx) {
 					for {
 						root = r.Pick(c11Roots)
 						dup := false
+						if plainRoot && (root == "" || root == "/" || strings.HasPrefix(root, "/{")) {
+							continue
+						}
 						for _, s := range m.Svcs {
 							a, b := s.Root, root
 							if a == "" {
@@ -302,6 +310,12 @@ func c11(ctx *core.Ctx) {
 					desc = fmt.Sprintf("Remove(%q)", m.Svcs[i].Root)
 					opsLog = append(opsLog, desc)
 					ws := m.Svcs[i].ws
+					if r.Chance(1, 3) {
+						// Remove identifies the service by its root path: an equal WebService built anew will do
+						ws = new(restful.WebService).Path(m.Svcs[i].Root)
+						desc += " [by an equal WebService built anew]"
+						opsLog[len(opsLog)-1] = desc
+					}
 					m.Svcs = append(m.Svcs[:i:i], m.Svcs[i+1:]...)
 					if err := c.Remove(ws); err != nil {
 						panic(err)
@@ -382,6 +396,9 @@ func c11(ctx *core.Ctx) {
 					var pat string
 					for {
 						pat = r.Pick(c11Patterns)
+						if plainRoot && r.Chance(1, 2) {
+							pat = "/"
+						}
 						dup := false
 						for _, h := range m.Handlers {
 							if h.Pattern == pat {
